@@ -21,8 +21,12 @@ CLAIMS = {
    text="Theorems over Model/DMap.v: after any operation sequence all copies of a key are identical (C02_copies); any F with |F| < number of distinct holders misses a holder; after the "
         "loss of F, under any later routing that reaches a surviving holder, a read returns exactly the last acknowledged content (never an older one) and deleted keys stay "
         "not-found (C02_survives, C02_deleted_stays_deleted). Executed: one real cluster per scenario (N 3..5, R 2..3, read-repair on/off), 1..R-1 members stopped gracefully or "
-        "abruptly (coordinator or random), operations during detection, then every key read from every survivor and a fresh cluster client, then a post-failure workload.",
-   note=TB + "memberlist's failure detector and the coordinator's recomputation are the environment (that the new routing still reaches a surviving holder is C13's territory and is "
+        "abruptly (coordinator or random), operations during detection, then every key read from every survivor and a fresh cluster client, then a post-failure workload; "
+        "the partition owner stopped at fail points inside a Put (after its own write / after a backup write) and a Delete. Half of the scenarios dump every copy after every "
+        "operation: Coq checks that Model/Balance.v's step explains each healthy transition, that each healthy state satisfies the invariant of the theorems, and that every "
+        "state after a member loss satisfies the member-loss invariant of Model/BalanceCrash.v (C03_crash_at_any_step: no copy newer than the last acknowledged entry, the "
+        "backup owners or the holders still have it, reads resolve to it).",
+   note=TB + "D40 (both copies of a partition on one member during a hand-over) is an open known finding that also bounds C02 while members are joining; memberlist's failure detector and the coordinator's recomputation are the environment (that the new routing still reaches a surviving holder is C13's territory and is "
         "validated by execution here); an operation in flight during the failure may or may not take effect.",
    ref="DESIGN.md 9 C02"),
  "C03": dict(
@@ -30,8 +34,14 @@ CLAIMS = {
         "deletes, joins, table moves and prunes the newest copy over the owners list is the last acknowledged entry, reads return it wherever it lives, deletes remove it "
         "everywhere, hand-over steps are invisible to readers, moves terminate and at quiescence each live key is stored exactly once on the primary (C03_resolve_invariant, "
         "C03_quiescent_once, ...; increasing timestamps are shown necessary by C03_resolve_without_fresh_refuted). Executed: real clusters grown by 1-4 joins with multi-table fragments, operations placed after the push / "
-        "between single balancer runs / after stabilisation, optional graceful leave; every Get at every point, final white-box placement and scans.",
-   note=TB + "crash of sender or receiver in the middle of a move is not injected (needs a guarded hook); memberlist and the balancer's timing are driven explicitly by the harness.",
+        "between single balancer runs / after stabilisation, optional graceful leave; every Get at every point, final white-box placement and scans. Members lost during the "
+        "hand-over (Model/BalanceCrash.v: interrupted moves, loss of any holder or of the backup owner at any step): as long as the backup owner or every holder survives a read "
+        "returns the last acknowledged entry (C03_crash_at_any_step), the bound is tight (C03_two_losses_refuted). Executed with fail points in fragment.Move / mergeFragments "
+        "(sender lost before the send and between merge and Drop, receiver lost before, during and after the import). Every operation of half of the scenarios is followed by a "
+        "white-box dump and compared inside Coq with the model's step function and invariants (~2500 transitions, ~6000 states per quick run).",
+   note=TB + "D40 (primary and only backup copy of a partition on one member during a hand-over, so that the loss of that member loses acknowledged writes) is an open known "
+        "finding, reproduced on every run by the directed harness op colocate; fail points are compiled in with the build tag verif (one guarded commit in /repo); a stopped member "
+        "is emulated in-process (gossip stopped without leave, listener and connections closed); memberlist and the balancer's timing are driven explicitly by the harness.",
    ref="DESIGN.md 9 C03"),
  "C07": dict(
    text="Theorems: atomic commit points imply linearizability w.r.t. the counter/swap specification (C07_commit_points_linearize), checker soundness, and the sum formula (final = "
